@@ -117,7 +117,12 @@ def check_constants(run, tree):
             run.unresolved(CONST + "::" + text[:30], fi.where(), "definition string not understood")
             continue
         order.append((parts[0], parts[1], parts[2:], None))
+    respelled = []
     for name, expr, aliases, node in order:
+        if expr.isidentifier() and expr in extra:
+            # "M_sol = M_sun": pint makes a NEW unit of the same size (units("M_sol") != units("M_sun"), Vectors mixing the two refuse);
+            # an equivalent spelling is declared as an alias of the definition ("solar_mass = ... = M_sun = M_sol")
+            respelled.append((name, expr))
         try:
             q = parse_unit(expr, extra)
         except Unsupported as e:
@@ -127,6 +132,10 @@ def check_constants(run, tree):
         extra[name] = (q, None)
         for a in aliases:
             extra[a] = (q, None)
+    run.ob(CONST + "::equivalent-spellings-are-aliases", not respelled, fi.where(),
+           "; ".join("%s is defined as a unit of its own equal to 1 %s" % r for r in respelled) or "%d definitions, every further spelling is an alias in its definition" % len(order),
+           "osyris.units('M_sol') != osyris.units('M_sun'): a.to('M_sol').unit differs from a.to('solar_mass').unit, Vector(x [M_sun], y [M_sol]) is refused",
+           nontrivial=False)
     for name, (want_val, want_dim) in S2.CONSTANTS.items():
         construct = "%s[%s]" % (CONST, name)
         if name not in defs:
